@@ -101,9 +101,8 @@ Print Assumptions c03_limiter_history.
 (* ---- the full statements that are FALSE of the code, with witnesses ----------------------- *)
 (* Full statement: for every well-formed configuration and every history in
    which callers behave, the monitor accepts the model's trace.  The model
-   transcribes gc/IsUnused, openConnection's allow-list retry and
-   transferAllowedToStandard literally, and three histories refute it; each
-   is a finding on the real code (known_findings/C03.json). *)
+   transcribes transferAllowedToStandard literally, and one history refutes it;
+   it is a finding on the real code (known_findings/C03.json). *)
 Definition full_statement : Prop :=
   forall c ops, config_wf c = true ->
     callers_run c astate0 [] 0 (model_trace c (init_state c) ops) = None ->
@@ -114,32 +113,19 @@ Lemma refute_by : forall c ops d, config_wf c = true ->
   mon_run c astate0 [] 0 (model_trace c (init_state c) ops) = d -> d <> [] -> ~ full_statement.
 Proof. intros c ops d W C M D F. apply D. rewrite <- M. apply F; assumption. Qed.
 
-(* IsUnused ignores memory: gc() closes a peer scope that still holds a View
-   reservation; system memory reads 0 while 300 bytes are held *)
-Theorem c03_gc_memory_refuted : ~ full_statement /\
-  mon_run gc_cfg astate0 [] 0 (model_trace gc_cfg (init_state gc_cfg) gc_ops)
-  = [ERR_PROPERTY; 1; CL_USAGE; 0; 0; 0; 300; 0; 0; 0; 0; 0; 0; 0; 0; 0; 0; 0; -1; 2].
-Proof.
-  assert (E : mon_run gc_cfg astate0 [] 0 (model_trace gc_cfg (init_state gc_cfg) gc_ops)
-              = [ERR_PROPERTY; 1; CL_USAGE; 0; 0; 0; 300; 0; 0; 0; 0; 0; 0; 0; 0; 0; 0; 0; -1; 2])
-    by (vm_compute; reflexivity).
-  split; [|exact E].
-  apply (refute_by gc_cfg gc_ops _ ltac:(vm_compute; reflexivity) ltac:(vm_compute; reflexivity) E). discriminate.
-Qed.
-Print Assumptions c03_gc_memory_refuted.
+(* regression (fixed in /repo by 4443cff and 540d954, model re-transcribed):
+   the two histories that used to refute the statement are accepted now.
+   gc() no longer closes a peer scope that holds a View reservation; the
+   allow-list retry keeps the limiter count, so the third connection of a /24
+   with prefix cap 2 is refused *)
+Example gc_memory_regression :
+  mon_run gc_cfg astate0 [] 0 (model_trace gc_cfg (init_state gc_cfg) gc_ops) = [].
+Proof. vm_compute. reflexivity. Qed.
 
-(* the allow-list retry drops the conn-limiter count: three connections from a
-   /24 whose explicit prefix cap is 2 are open at once *)
-Theorem c03_allowlist_cap_refuted : ~ full_statement /\
-  mon_run al_cfg astate0 [] 0 (model_trace al_cfg (init_state al_cfg) al_ops)
-  = [ERR_PROPERTY; 2; CL_CAP; 1; 9; 2; 0; -1; 0].
-Proof.
-  assert (E : mon_run al_cfg astate0 [] 0 (model_trace al_cfg (init_state al_cfg) al_ops)
-              = [ERR_PROPERTY; 2; CL_CAP; 1; 9; 2; 0; -1; 0]) by (vm_compute; reflexivity).
-  split; [|exact E].
-  apply (refute_by al_cfg al_ops _ ltac:(vm_compute; reflexivity) ltac:(vm_compute; reflexivity) E). discriminate.
-Qed.
-Print Assumptions c03_allowlist_cap_refuted.
+Example allowlist_cap_regression :
+  mon_run al_cfg astate0 [] 0 (model_trace al_cfg (init_state al_cfg) al_ops) = [] /\
+  map (fun x => o_cls (snd x)) (model_trace al_cfg (init_state al_cfg) al_ops) = [0; 0; E_CAP].
+Proof. vm_compute. split; reflexivity. Qed.
 
 (* a refused transferAllowedToStandard leaves the connection without edges; a
    second SetPeer is accepted and charges the peer scope only: system does not
